@@ -32,6 +32,9 @@ func runExec(t *testing.T, s *Scenario, prop string) emit.Case {
 	conflicts := false
 	seen := map[string]bool{}
 	for _, tx := range s.Txs {
+		if len(tx.Transfers) >= 2 {
+			conflicts = true
+		}
 		for _, a := range tx.Actions {
 			for _, k := range a.KeysB {
 				if seen[string(k)] {
@@ -44,6 +47,7 @@ func runExec(t *testing.T, s *Scenario, prop string) emit.Case {
 	sig := map[string]string{
 		"C01": "parallel-differs-from-sequential",
 		"C03": "tx-not-atomic-or-fee-wrong",
+		"C06": "token-supply-not-conserved",
 		"C07": "fee-check-other",
 		"C11": "accepted-block-does-not-extend-parent",
 		"C24": "parent-reads-not-exactly-declared",
@@ -117,6 +121,14 @@ func TestDriver(t *testing.T) {
 		return
 	}
 	for i := 0; i < env.N; i++ {
+		if env.Prop == "C06" {
+			ms := genMorpheusScenario(r)
+			if r.Intn(2) == 0 {
+				ms.exactPatterns(r)
+			}
+			_ = w.Put(runExec(t, ms, env.Prop))
+			continue
+		}
 		_ = w.Put(runExec(t, genScenario(r, env.Prop), env.Prop))
 	}
 }
